@@ -585,7 +585,7 @@ fn gen(rng: &mut Rng, tier: &str) -> Vec<(String, Value)> {
         let n = h.versions.len();
         for a in 0..n { for b in a..n { for c in b..n {
             for w in [1usize, 2, 5] {
-                if !thorough && (a + b + c + w + hi) % 3 != 0 { continue }
+                if !thorough && (a + b + c + w + hi) % 6 != 0 { continue }
                 cases.push(("honest.walk".to_string(), case_of((10, 10, false), std::slice::from_ref(h),
                     honest_walk(std::slice::from_ref(h), &[(0, a, w), (0, b, w), (0, c, w), (0, n - 1, w)]))));
             }
@@ -601,8 +601,8 @@ fn gen(rng: &mut Rng, tier: &str) -> Vec<(String, Value)> {
         for (wi, walk) in walks.iter().enumerate() {
             let walk: Vec<(usize, usize, usize)> = walk.iter().map(|(a, v, w)| (*a, (*v).min(h.versions.len() - 1), *w)).collect();
             if !thorough && hi >= 1 && wi == 1 { continue }
-            // quick tier: the full fault list on the first history, every fifth fault on the others
-            let stride = if thorough || (hi < 1 && wi == 0) { 1 } else if wi == 1 { 2 } else { 5 };
+            // quick tier: the full fault list on the first history, every eighth fault on the others
+            let stride = if thorough || (hi < 1 && wi == 0) { 1 } else if wi == 1 { 3 } else { 8 };
             let honest = honest_walk(std::slice::from_ref(h), &walk);
             for t in 0..honest.len() {
                 for (fi, (name, step, cfg)) in faults_of(&honest[t], h, walk[t].1).into_iter().enumerate() {
@@ -638,7 +638,7 @@ fn gen(rng: &mut Rng, tier: &str) -> Vec<(String, Value)> {
     }
 
     // (d) random: two sessions, the server moves forward, stays, goes back or changes session; several faults per run
-    let n = if thorough { 6000 } else { 400 };
+    let n = if thorough { 6000 } else { 300 };
     for _ in 0..n {
         let (l1, l2) = (rng.range(2, 5) as usize, rng.range(1, 4) as usize);
         let hs = vec![random_history(rng, 1, l1), random_history(rng, 2, l2)];
